@@ -395,7 +395,7 @@ input parameters 'x' every 'xinterval'.
         super(VerboseMonitor,self).__call__(x, y, id, k=k)
         if self._yinterval is not numpy.inf and \
            int((self._step-1) % self._yinterval) == 0:
-            if not list_or_tuple_or_ndarray(y) or not numpy.ndim(y): # (0-d is a scalar)
+            if not list_or_tuple_or_ndarray(y) or not getattr(y, 'ndim', 1): # (0-d is a scalar)
                 who = ''
                 y = " %s" % self._ik(self._y[-1], k)
             elif self._all:
@@ -467,7 +467,7 @@ Logs output 'y' and input parameters 'x' to a file every 'interval'.
         super(LoggingMonitor,self).__call__(x, y, id, k=k)
         if self._yinterval is not numpy.inf and \
            int((self._step-1) % self._yinterval) == 0:
-            if not list_or_tuple_or_ndarray(y) or not numpy.ndim(y): # (0-d is a scalar)
+            if not list_or_tuple_or_ndarray(y) or not getattr(y, 'ndim', 1): # (0-d is a scalar)
                 y = "%s" % self._ik(self._y[-1], k)
             elif self._all:
                 y = "%s" % self._ik(self._y[-1], k)
@@ -537,7 +537,7 @@ print every 'yinterval'.
         super(VerboseLoggingMonitor,self).__call__(x, y, id, best, k=k)
         if self._vyinterval is not numpy.inf and \
            int((self._step-1) % self._vyinterval) == 0:
-            if not list_or_tuple_or_ndarray(y) or not numpy.ndim(y): # (0-d is a scalar)
+            if not list_or_tuple_or_ndarray(y) or not getattr(y, 'ndim', 1): # (0-d is a scalar)
                 who = ''
                 y = " %s" % self._ik(self._y[-1], k)
             elif self._all:
